@@ -30,6 +30,44 @@ PROPS = {
                       "case_insensitive_history_search feature not claimed.",
         "assumptions": ["FileHistory delegates to MemHistory for the store (checked: both kinds are driven)"],
     },
+    "C18": {
+        "module": "Rl.Props.C18",
+        "targets": [{"name": "direct", "gen": "direct", "header_tokens": 4},
+                    {"name": "seg", "gen": "seg", "header_tokens": 1}],
+        "shards": {"quick": 8, "thorough": 16},
+        "trivial_impl_regex": r"eof|-",
+        "rule": "direct: a child process linked against /repo with stdin a pipe calls Editor::readline until end of file. "
+                "Regression seeds (clusters of 3..513 bytes followed by backspace, the repo's own test literal); exhaustive: "
+                "every stream of <=3 (thorough <=4) characters over {a LF CR BS ( )} x {no validator, MatchingBracketValidator, "
+                "scripted validator} alternating TERM=xterm (stdin-not-a-tty path) and TERM=dumb (unsupported-terminal path); "
+                "structured: 2400 (thorough 40000) streams built line by line (1..6 lines of nested brackets with mostly matching "
+                "closers, BS, lone CR, multi-byte characters; terminators LF / CRLF / CR CR LF / none) so that the bracket validator "
+                "accumulates and accepts and kept text often ends in CR; "
+                "random: 1600 (thorough 40000) streams of <=28 (<=60) items over brackets, LF, CR, BS, 2/3/4-byte characters, "
+                "combining marks, ZWJ, pictographs, regional indicator, and clusters of up to ~1200 bytes, validators none / "
+                "brackets / scripted verdict table (valid, invalid with/without message, incomplete, error). "
+                "seg: the concrete UAX#29 segmenter against unicode-segmentation graphemes(true) on every string of <=4 "
+                "(thorough <=5) characters over the DESIGN alphabet, every string of <=4 (<=5) over 14 class representatives "
+                "(RI, emoji modifier, VS16, SpacingMark, Prepend, BS, ...), and 20000 (200000) random strings of 5..16. "
+                "distinct = hash of the request; trivial = a stream with no line (observation `eof`) or the empty text.",
+        "exhaustive": {"quick": True, "thorough": True},
+        "trusted_base": [
+            "BufRead::read_line on valid UTF-8 modelled as 'cut after every LF' (Rl.Direct.readLines); invalid UTF-8 is outside the property",
+            "grapheme classes (gcb column) come from harness/src/common.rs::gcb_class, not from unicode-segmentation; the segmenter built on "
+            "them (Rl.uaxSeg) is compared with unicode-segmentation on the alphabet by target `seg`; Hangul, GB9c and characters outside "
+            "the alphabet are not covered by that comparison. The theorems hold for every lawful segmenter.",
+            "validator messages written to stderr are not observed",
+            "dev profile (overflow checks on): `out.len() - n` underflow is a panic in the model"],
+        "level_text": "Unbounded Lean theorems over every lawful segmenter and every validator function: apply_backspace_direct equals the "
+                      "stack evaluation of the cluster sequence and never panics; without a validator the session returns exactly the "
+                      "lines of the stream (LF/CRLF stripped, final unterminated line included) then eof; with a validator a returned "
+                      "line was judged Valid and is the accumulation of the consumed lines; no call panics. The model is tied to /repo "
+                      "by running the real Editor::readline in a child process on a pipe.",
+        "level_note": "Trusted: Lean kernel; harness/diff; read_line as LF-splitting; gcb classes of the harness table (checked against "
+                      "unicode-segmentation on the alphabet); stderr messages unobserved.",
+        "assumptions": ["input is valid UTF-8 (property quantifier)",
+                        "on Invalid the text is left unchanged and no terminator is kept (C13 wording; pinned by the repo's test_readline_direct)"],
+    },
 }
 
 # properties not (yet) claimed, with the reason (kept current; see DESIGN.md)
